@@ -1,1 +1,3 @@
 pub mod c02;
+pub mod c06;
+pub mod c09;
